@@ -34,6 +34,8 @@ func runC09(c *Check, tier string) {
 	ruleRecordListsFilledSequentially(c, "R09j")
 	ruleRecordedOutputsComparedAsSets(c, "R09k")
 	ruleExportedConfigIsKeyed(c, "R09l")
+	// the resolved inputs (a key source) do not depend on where the workspace lives
+	ruleGlobPatternNotComposed(c, "R09m")
 }
 
 // R09f: every listed input file contributes its content — the loop that streams the input files into the
